@@ -10,6 +10,9 @@ from core import require, scratch_dir
 
 ID = "C02"
 LEVEL = "exploration"
+LEVEL_TEXT = (
+    "Train / held-out set algebra and score provenance observed through recording estimators on every generated configuration; held on all of them. Exploration over datasets, folds, caps, workers, key arities."
+)
 TECHNIQUE = (
     "Hypothesis-generated multi-file PSM tables x folds x caps x workers, observed through a recording estimator "
     "passed via the public Model API; oracle = train/held-out set algebra on row ids and score provenance"
